@@ -124,7 +124,7 @@ Section INTRO.
     - left. rewrite (H1 _ E) in Hex.
       destruct HW as [_ [_ [_ [_ Hv]]]]. destruct (Hv ws Hws) as [Hwd Hval].
       assert (Hin0 : In i (job_dirs f0 ws)) by (apply job_dirs_In; auto).
-      specialize (Hval i Hin0). unfold validates in *.
+      destruct (Hval i Hin0) as [Hval' _]. clear Hval. rename Hval' into Hval. unfold validates in *.
       destruct (under_any ds (ws ++ [i; SPF])) eqn:E2.
       + pose proof (affected_job ws i SPF Hws E2) as Hin.
         assert (under_any ds (ws ++ [i]) = true).
@@ -232,12 +232,19 @@ Lemma validates_dir : forall frepr f ws i, validates frepr f ws i =
 Proof. intros. unfold validates. rewrite <- app_assoc. reflexivity. Qed.
 
 (* a listed job of a valid workspace: a directory with a validating state point file *)
+Lemma winv_job_nn : forall frepr wss f0 ws i, WInv frepr wss f0 -> In ws wss -> In i (job_dirs f0 ws) ->
+  forall c v, get f0 ((ws ++ [i]) ++ [SPF]) = Some (File c) -> c_json c = Some v -> is_jnull v = false.
+Proof.
+  intros frepr wss f0 ws i HW Hws Hi c v G J. destruct HW as [_ [_ [_ [_ Hv]]]]. destruct (Hv ws Hws) as [_ Hval].
+  destruct (Hval i Hi) as [_ Hnn]. rewrite sp_value_dir, G, J in Hnn. destruct v; auto. congruence.
+Qed.
+
 Lemma winv_job : forall frepr wss f0 ws i, WInv frepr wss f0 -> In ws wss -> In i (job_dirs f0 ws) ->
   get f0 (ws ++ [i]) = Some Dir /\
   exists c v, get f0 ((ws ++ [i]) ++ [SPF]) = Some (File c) /\ c_json c = Some v /\ calc_id frepr v = i.
 Proof.
   intros frepr wss f0 ws i HW Hws Hi. destruct HW as [_ [_ [Hcl [_ Hv]]]]. destruct (Hv ws Hws) as [_ Hval].
-  specialize (Hval i Hi). rewrite validates_dir in Hval.
+  destruct (Hval i Hi) as [Hval' _]. clear Hval. rename Hval' into Hval. rewrite validates_dir in Hval.
   destruct (get f0 ((ws ++ [i]) ++ [SPF])) as [[c|]|] eqn:G; try discriminate.
   destruct (c_json c) as [v|] eqn:J; try discriminate. apply str_eqb_eq in Hval. split; [|eauto].
   assert (Hne : get f0 ((ws ++ [i]) ++ [SPF]) <> None) by congruence.
@@ -374,7 +381,8 @@ Section MOVE.
     apply crashed_do_inv in H; [|reflexivity]. destruct H as [->|H]; [apply cinv_move_pre|].
     unfold exec_res in H. simpl in H.
     replace (ws ++ [i; SPF]) with (s ++ [SPF]) in H by (unfold s; rewrite <- app_assoc; reflexivity).
-    rewrite G in H. simpl in H. rewrite J, E, str_eqb_refl in H.
+    assert (Hnn : is_jnull v = false) by (apply (winv_job_nn frepr wss f0 ws i HW Hws Hi c v G J)).
+    rewrite G in H. simpl in H. rewrite J, Hnn, E, str_eqb_refl in H.
     unfold mkdir_p in H.
     apply crashed_do_inv in H; [|reflexivity]. destruct H as [->|H]; [apply cinv_move_pre|].
     rewrite exec_res_stat in H. simpl in H. rewrite Hdw in H. simpl in H.
@@ -484,7 +492,8 @@ Section MOVE.
     replace (ws ++ [i; SPF]) with (s ++ [SPF]) by (unfold s; rewrite <- app_assoc; reflexivity).
     destruct (plan 0%nat) as [e0|].
     { destruct e0; simpl; apply Hraise. }
-    unfold exec_res. simpl. rewrite G. simpl. rewrite J, E, str_eqb_refl. fold s d.
+    assert (Hnn : is_jnull v = false) by (apply (winv_job_nn frepr wss f0 ws i HW Hws Hi c v G J)).
+    unfold exec_res. simpl. rewrite G. simpl. rewrite J, Hnn, E, str_eqb_refl. fold s d.
     change (Do (CRename s d) _) with move_tail.
     assert (Htail : forall n, let '(g, out) := run_fault plan n move_tail f0 in move_outcome_ok g out) by (intro n; apply move_tail_run).
     unfold mkdir_p. rewrite run_fault_do.
@@ -576,6 +585,7 @@ Section INITRUN.
   Hypothesis Hfile : get f file = None.
   Hypothesis Htmp : get f tmp = None.
   Hypothesis Hdir : get f dir = None \/ get f dir = Some Dir.
+  Hypothesis Hspnn : is_jnull sp = false.
 
   Definition init_st (g : fs) : Prop :=
     (forall q, q <> dir -> q <> file -> q <> tmp -> get g q = get f q) /\
@@ -645,7 +655,7 @@ Section INITRUN.
     assert (Hg : get fD file = Some (File (jcontent frepr sp))) by (rewrite (HX file), path_eqb_refl; reflexivity).
     assert (E : exec_res fD (CRead file) = (fD, FOk (RData (jcontent frepr sp)))).
     { unfold exec_res. cbn [exec]. rewrite Hg. reflexivity. }
-    rewrite E in H. cbn [fst snd] in H. cbn [jcontent c_json] in H. fold i in H. rewrite str_eqb_refl in H.
+    rewrite E in H. cbn [fst snd] in H. cbn [jcontent c_json] in H. fold i in H. rewrite Hspnn, str_eqb_refl in H.
     apply crashed_ret_inv in H. exact H.
   Qed.
 
@@ -788,6 +798,7 @@ Section INIT.
   Let ws : path := w1 :: w2 :: wr.
   Hypothesis HW : WInv frepr wss f0.
   Hypothesis Hws : In ws wss.
+  Hypothesis Hspnn0 : is_jnull sp = false.
   Let o := KInit ws sp force.
   Let i := calc_id frepr sp.
   Let dir := ws ++ [i].
@@ -849,7 +860,8 @@ Section INIT.
       unfold op_prog, o, job_init, sp_load in H. cbv zeta in H. fold i dir in H.
       apply crashed_do_inv in H; [|reflexivity]. destruct H as [->|H]; [apply cinv_init_existing; auto|].
       assert (E0 : exec_res f0 (CRead (dir ++ [SPF])) = (f0, FOk (RData c))) by (unfold exec_res; cbn [exec]; rewrite G; reflexivity).
-      rewrite E0 in H. cbn [fst snd] in H. rewrite J, E, str_eqb_refl in H.
+      assert (Hnn : is_jnull v = false) by (apply (winv_job_nn frepr wss f0 ws i HW Hws Hi c v G J)).
+      rewrite E0 in H. cbn [fst snd] in H. rewrite J, Hnn, E, str_eqb_refl in H.
       apply crashed_ret_inv in H. subst g. apply cinv_init_existing; auto.
     - apply (cinv_init_st g Gd).
       apply (init_crash_states frepr atomic [] w1 w2 wr sp f0) with (force := force).
@@ -857,6 +869,7 @@ Section INIT.
       + apply (closed_absent f0 dir Hcl Gd [SPF]).
       + apply (closed_absent f0 dir Hcl Gd [TMPPFX ++ [] ++ SPF]).
       + left. exact Gd.
+      + exact Hspnn0.
       + exact H.
   Qed.
 End INIT.
@@ -899,6 +912,7 @@ Section REKEY.
   Hypothesis Hne : old <> new.
   (* no stale temp file of an interrupted earlier write in the job directory *)
   Hypothesis Hnotmp : get f0 (odir ++ [TMPPFX ++ [] ++ SPF]) = None.
+  Hypothesis Hnspnn : is_jnull nsp = false.
 
   Lemma rk_src : get f0 odir = Some Dir /\
     exists c v, get f0 fname = Some (File c) /\ c_json c = Some v /\ calc_id frepr v = old.
@@ -1266,7 +1280,8 @@ Section REKEY.
     replace (ws ++ [old; SPF]) with fname in H by (unfold fname, odir; rewrite <- app_assoc; reflexivity).
     apply crashed_do_inv in H; [|reflexivity]. destruct H as [->|H]; [exact Hpre|].
     assert (E0 : exec_res f0 (CRead fname) = (f0, FOk (RData c))) by (unfold exec_res; cbn [exec]; rewrite G; reflexivity).
-    rewrite E0 in H. cbn [fst snd] in H. rewrite J, E, str_eqb_refl in H.
+    assert (Hnn : is_jnull v0 = false) by (apply (winv_job_nn frepr wss f0 ws old HW Hws Hold c v0 G J)).
+    rewrite E0 in H. cbn [fst snd] in H. rewrite J, Hnn, E, str_eqb_refl in H.
     unfold rekey in H. fold new in H.
     assert (En : str_eqb old new = false) by (apply str_eqb_neq; exact Hne).
     rewrite En in H. cbv zeta in H. fold odir ndir fname bak in H.
@@ -1322,7 +1337,7 @@ Section REKEY.
         - unfold unlink in Eu. rewrite Gb2 in Eu. discriminate. }
       destruct X4 as [f4 [E4 H4]]. rewrite E4 in H. cbn [fst snd] in H.
       apply (cinv_rk_init c Hod0 Eo f1 f2 S1 S2 f4 g H4).
-      apply (init_crash_states frepr atomic [] w1 w2 wr nsp f4) with (force := false); [| | | |exact H]; fold ws new ndir.
+      apply (init_crash_states frepr atomic [] w1 w2 wr nsp f4) with (force := false); [| | | | |exact H]; fold ws new ndir.
       + rewrite H4.
         assert (Ew : path_eqb ws (ndir ++ [SPT]) = false).
         { apply path_eqb_neq. intro Q. assert (L : length ws = length (ndir ++ [SPT])) by (rewrite <- Q; reflexivity).
@@ -1336,6 +1351,7 @@ Section REKEY.
           apply path_eqb_neq; unfold bak, fname; rewrite path_eqb_snoc; reflexivity.
       + right. rewrite H4, path_eqb_self_snoc. rewrite <- (app_nil_r ndir). rewrite (st2_new f1 f2 S2), app_nil_r.
         apply (st1_odir c Hod0 f1 S1).
+      + exact Hnspnn.
   Qed.
 End REKEY.
 
@@ -1350,7 +1366,8 @@ Proof.
   replace (ws ++ [old; SPF]) with ((ws ++ [old]) ++ [SPF]) in H by (rewrite <- app_assoc; reflexivity).
   apply crashed_do_inv in H; [|reflexivity]. destruct H as [->|H]; auto.
   assert (E0 : exec_res f0 (CRead ((ws ++ [old]) ++ [SPF])) = (f0, FOk (RData c))) by (unfold exec_res; cbn [exec]; rewrite G; reflexivity).
-  rewrite E0 in H. cbn [fst snd] in H. rewrite J, E, str_eqb_refl in H.
+  assert (Hnn : is_jnull v = false) by (apply (winv_job_nn frepr wss f0 ws old HW Hws Hold c v G J)).
+  rewrite E0 in H. cbn [fst snd] in H. rewrite J, Hnn, E, str_eqb_refl in H.
   unfold rekey in H. rewrite Heq, str_eqb_refl in H. apply crashed_ret_inv in H. exact H.
 Qed.
 
@@ -1394,7 +1411,7 @@ Proof.
   - apply IH. intros m' Hin. apply Hall. right. exact Hin.
 Qed.
 
-(* ------------------------------------------------------------------ Project.clone: a fault leaves an undetectable partial copy *)
+(* ------------------------------------------------------------------ Project.clone: a concrete workspace and fault *)
 Definition cw_repr : fl -> str := fun _ => [].
 Definition cw_sp : json := JObj [([97%N], JInt 1)].
 Definition cw_id : str := Eval vm_compute in calc_id cw_repr cw_sp.
@@ -1410,22 +1427,21 @@ Definition cw_f0 : fs :=
 Definition cw_op : cop := KClone cw_a cw_id cw_b.
 Definition cw_sig : csig := {| sg_kind := SgWrite; sg_p := cw_b ++ [cw_id; cw_data]; sg_q := [] |}.
 
-Lemma clone_fault_witness :
+(* the former refutation witness (a write error on a data file during clone), after the repair in /repo
+   (the partial destination is removed before the error is re-raised): exception and the pre-state *)
+Lemma clone_fault_repaired_witness :
   match find_occ cw_sig 0 (map fst (trace (op_prog cw_repr true cw_op) cw_f0)) 0 with
   | None => False
   | Some k =>
       let '(g, out) := run_fault (single k EIO) 0 (op_prog cw_repr true cw_op) cw_f0 in
-      (exists e, out = inr e)                                        (* the caller sees an exception ...          *)
-      /\ validates cw_repr g cw_b cw_id = true                       (* ... the new directory validates ...        *)
-      /\ check_report cw_repr g cw_b = Some []                       (* ... check() reports nothing ...            *)
-      /\ holds_file g (cw_b ++ [cw_id]) [cw_data] cw_bytes = false   (* ... but the data file is not there intact  *)
-      /\ exists_ g (cw_b ++ [cw_id]) = true /\ exists_ cw_f0 (cw_b ++ [cw_id]) = false   (* and it is not the pre-state *)
+      (exists e, out = inr e) /\ exists_ g (cw_b ++ [cw_id]) = false /\
+      forallb (fun e => node_same (get cw_f0 (fst e)) (get g (fst e))) (cw_f0 ++ g) = true
   end.
 Proof. vm_compute. repeat split; eauto. Qed.
 
 (* ------------------------------------------------------------------ statements as used in props/C11.v *)
 Lemma crash_safe_init_thm : forall frepr wss f0 w1 w2 wr sp force atomic g,
-  WInv frepr wss f0 -> In (w1 :: w2 :: wr) wss ->
+  WInv frepr wss f0 -> In (w1 :: w2 :: wr) wss -> is_jnull sp = false ->
   crash_states (op_prog frepr atomic (KInit (w1 :: w2 :: wr) sp force)) f0 g ->
   CInv frepr (KInit (w1 :: w2 :: wr) sp force) wss f0 g.
 Proof. intros. eapply crash_safe_init_lemma; eauto. Qed.
@@ -1434,6 +1450,7 @@ Lemma crash_safe_rekey_thm : forall frepr wss f0 w1 w2 wr old nsp atomic g,
   WInv frepr wss f0 -> In (w1 :: w2 :: wr) wss -> In old (job_dirs f0 (w1 :: w2 :: wr)) ->
   old <> calc_id frepr nsp ->
   get f0 (((w1 :: w2 :: wr) ++ [old]) ++ [TMPPFX ++ [] ++ SPF]) = None ->
+  is_jnull nsp = false ->
   crash_states (op_prog frepr atomic (KRekey (w1 :: w2 :: wr) old nsp)) f0 g ->
   CInv frepr (KRekey (w1 :: w2 :: wr) old nsp) wss f0 g.
 Proof. intros. eapply crash_safe_rekey_lemma; eauto. Qed.
